@@ -251,4 +251,91 @@ example : expand 4611686018427387903 ⟨0, 5⟩ = some 4611686018427387903 ∧
 example : truncate 128 0 = some ⟨1, 128⟩ ∧ Rfc.PacketNumber.a2NumBytes 128 0 = 1 := by decide
 example : next 7 = some 8 ∧ next 4611686018427387903 = none := by decide
 
+/-! ### `PacketNumberRange`: the iterator ACK processing walks over -/
+
+theorem range_collect_done (k : Nat) (r : Range) (h : r.exhausted = true ∨ r.stop < r.start) :
+    Range.collect (k + 1) r = [] := by
+  unfold Range.collect Range.next
+  rcases h with h | h
+  · simp [h]
+  · have : ¬ r.start ≤ r.stop := by omega
+    simp [this]
+
+theorem range_collectBack_done (k : Nat) (r : Range) (h : r.exhausted = true ∨ r.stop < r.start) :
+    Range.collectBack (k + 1) r = [] := by
+  unfold Range.collectBack Range.nextBack
+  rcases h with h | h
+  · simp [h]
+  · have : ¬ r.start ≤ r.stop := by omega
+    simp [this]
+
+/-- the forward iterator of `PacketNumberRange::new(s, e)` yields exactly `s, s+1, …, e` and then
+    stops (also when `e` is the largest packet number, where `next()` has no successor) -/
+theorem range_iter_forward (n s e : Nat) (hse : s ≤ e) (he : e ≤ maxPn) (hn : e - s = n) :
+    Range.collect (n + 2) ⟨s, e, false⟩ = List.range' s (n + 1) := by
+  induction n generalizing s with
+  | zero =>
+    have : s = e := by omega
+    subst this
+    unfold Range.collect Range.next
+    simp only [Bool.not_false, Nat.le_refl, decide_true, Bool.and_self, if_true]
+    cases hx : Codec.PacketNumber.next s with
+    | none =>
+      simp only
+      rw [range_collect_done 0 _ (Or.inl rfl)]
+      rfl
+    | some q =>
+      simp only
+      have : q = s + 1 := by
+        unfold Codec.PacketNumber.next at hx; split at hx
+        · cases hx; rfl
+        · cases hx
+      subst this
+      rw [range_collect_done 0 _ (Or.inr (by simp only; omega))]
+      rfl
+  | succ n ih =>
+    have hlt : s + 1 ≤ maxPn := by omega
+    unfold Range.collect Range.next
+    have h1 : s ≤ e := hse
+    simp only [Bool.not_false, h1, decide_true, Bool.and_self, if_true, Codec.PacketNumber.next, if_pos hlt]
+    rw [ih (s + 1) (by omega) (by omega)]
+    simp [List.range'_succ]
+
+theorem range_iter_backward (n s e : Nat) (hse : s ≤ e) (hn : e - s = n) :
+    Range.collectBack (n + 2) ⟨s, e, false⟩ = (List.range' s (n + 1)).reverse := by
+  induction n generalizing e with
+  | zero =>
+    have : s = e := by omega
+    subst this
+    unfold Range.collectBack Range.nextBack
+    simp only [Bool.not_false, Nat.le_refl, decide_true, Bool.and_self, if_true]
+    cases hx : Codec.PacketNumber.prev s with
+    | none =>
+      simp only
+      rw [range_collectBack_done 0 _ (Or.inl rfl)]
+      rfl
+    | some q =>
+      simp only
+      have hq : q = s - 1 ∧ 1 ≤ s := by
+        unfold Codec.PacketNumber.prev at hx; split at hx
+        · cases hx; exact ⟨rfl, by assumption⟩
+        · cases hx
+      rw [range_collectBack_done 0 _ (Or.inl (by simp only [decide_eq_true_eq]; omega))]
+      rfl
+  | succ n ih =>
+    have hlt : 1 ≤ e := by omega
+    unfold Range.collectBack Range.nextBack
+    have h1 : s ≤ e := hse
+    have h2 : ¬ s > e - 1 := by omega
+    simp only [Bool.not_false, h1, decide_true, Bool.and_self, if_true, Codec.PacketNumber.prev, if_pos hlt, h2, decide_false]
+    rw [ih (e - 1) (by omega) (by omega)]
+    have : e = s + (n + 1) := by omega
+    subst this
+    rw [List.range'_concat (s := s) (n := n + 1), List.reverse_append]
+    simp
+-- non-vacuity: at the top of the packet-number space the forward iterator still terminates
+example : Range.collect 5 ⟨4611686018427387901, 4611686018427387903, false⟩
+    = [4611686018427387901, 4611686018427387902, 4611686018427387903] := by decide
+example : Range.collectBack 5 ⟨0, 2, false⟩ = [2, 1, 0] := by decide
+
 end Quic.Proofs.C08
